@@ -1,6 +1,8 @@
 """C20 - B-tree zone flags, delegation index and bounds are a function of zone content.
 
-case = [relativize, origin_labels, [txn, ...]]
+case = [relativize, origin_labels, [txn, ...]]  or  [relativize, origin_labels, [txn, ...], t]
+       (t = branching parameter of the B-trees: 0/absent = the default 127, else a small t so that the
+        name index and the delegation index are multi-level trees already for small zones)
 txn  = [replacement, commit, [op, ...], [query_name, ...]]
 op   = [1, name, rdtype, [rdata ids]]   txn.add(name, rdataset)
        [2, name, rdtype, [rdata ids]]   txn.replace(name, rdataset)
@@ -16,6 +18,7 @@ kinds "load*" go through dns.zone.from_text (oracle only, permutations of one re
 """
 import itertools
 
+import dns.btree
 import dns.btreezone
 import dns.exception
 import dns.name
@@ -125,12 +128,61 @@ def N(labels):
 # ------------------------------------------------------------------ implementation
 
 
+E_LEN = 903      # len(nodes) differs from the number of names iterated
+E_GET = 904      # nodes.get(name) is not the node met while iterating
+E_STALE = 902    # an older committed version changed after a later commit
+
+
 def dump_version(v):
     nodes = []
+    n = 0
     for name, node in v.nodes.items():
+        n += 1
+        if v.nodes.get(name) is not node:
+            raise HarnessCheck(E_GET, "nodes.get(name) is not the iterated node")
         nodes.append([labels_of(name), int(node.flags),
                       [[int(r.rdtype), [id_of(x) for x in r]] for r in node.rdatasets]])
-    return [nodes, [labels_of(k) for k in v.delegations]]
+    if len(v.nodes) != n:
+        raise HarnessCheck(E_LEN, "len(nodes) != names iterated")
+    delegs = [labels_of(k) for k in v.delegations]
+    if len(v.delegations) != len(delegs) or any(N(k) not in v.delegations for k in delegs):
+        raise HarnessCheck(E_LEN, "delegation index inconsistent with its iteration")
+    return [nodes, delegs]
+
+
+class HarnessCheck(Exception):
+    def __init__(self, code, text):
+        super().__init__(text)
+        self.code = code
+        self.text = text
+
+
+_ZONES = {}
+
+
+def zone_classes(t):
+    """dns.btreezone.Zone (t = 0) or a subclass whose name index is a BTreeDict(t=t), together with
+    a Delegations subclass of the same t"""
+    if t == 0:
+        return dns.btreezone.Zone, dns.btreezone.Delegations
+    if t not in _ZONES:
+        base = dns.btreezone.Delegations
+
+        class SmallDelegations(base):
+            def __init__(self, *, original=None, **kw):
+                if original is not None:
+                    super().__init__(original=original)
+                else:
+                    super().__init__(t=t)
+
+        def mf():
+            return dns.btree.BTreeDict(t=t)
+
+        class SmallZone(dns.btreezone.Zone):
+            map_factory = staticmethod(mf)
+
+        _ZONES[t] = (SmallZone, SmallDelegations)
+    return _ZONES[t]
 
 
 def query(v, q):
@@ -167,9 +219,21 @@ def apply_op(txn, op):
 
 
 def run_history(case):
-    rel, origin, txns = case
-    z = dns.btreezone.Zone(N(origin), relativize=bool(rel))
+    rel, origin, txns = case[:3]
+    t = case[3] if len(case) > 3 else 0
+    zcls, dcls = zone_classes(t)
+    saved = dns.btreezone.Delegations
+    dns.btreezone.Delegations = dcls
+    try:
+        return run_history_in(zcls, rel, origin, txns)
+    finally:
+        dns.btreezone.Delegations = saved
+
+
+def run_history_in(zcls, rel, origin, txns):
+    z = zcls(N(origin), relativize=bool(rel))
     out = []
+    older = []       # (version object, its dump when it was the newest)
     for repl, commit, ops, queries in txns:
         opres = []
         try:
@@ -187,15 +251,20 @@ def run_history(case):
             txn.commit()
         else:
             txn.rollback()
-        with z.reader() as r:
-            v = r.version
-            if not hasattr(v, "delegations"):
-                # nothing has been committed yet: the initial empty version
-                d = [[], []]
-                qs = [Err(E_ASSERT, "no version") for _ in queries]
-            else:
+        try:
+            with z.reader() as r:
+                v = r.version
                 d = dump_version(v)
                 qs = [query(v, q) for q in queries]
+            # copy-on-write: versions committed earlier still read as they did
+            for ov, od in older[-2:]:
+                if ov is not v and dump_version(ov) != od:
+                    raise HarnessCheck(E_STALE, "an older version changed")
+            if not older or older[-1][0] is not v:
+                older.append((v, d))
+        except HarnessCheck as e:
+            out.append(Err(e.code, e.text))
+            continue
         out.append([opres, d, qs])
     return out
 
@@ -370,10 +439,12 @@ def oracle(ctx, kind, case, out):
         _, rel, origin, _, records, queries = case
         check_state(fail, rel, origin, out[0][1], out[0][2], queries, 0)
         return F
-    rel, origin, txns = case
+    rel, origin, txns = case[:3]
     for i, (t, o) in enumerate(zip(txns, out)):
         if isinstance(o, Err):
-            if not (o.code == E_VALUE and i == 0 and not t[0]):
+            if o.code in (E_LEN, E_GET, E_STALE):
+                fail("committed version is inconsistent: " + o.text, sig="tree-%d" % o.code, where=i)
+            elif not (o.code == E_VALUE and i == 0 and not t[0]):
                 fail("writer() raised " + o.text, sig="exc", where=i)
             continue
         opres, d, qs = o
@@ -484,6 +555,8 @@ def gen_history(ctx, rng, ntxn=None, nops=None, nq=6):
             if base:
                 qs.append(user_form(rng, rel, origin, [base[0] + b"0"] + base[1:], 0.1))
         txns.append([repl, commit, ops, qs])
+    if rng.random() < 0.5:
+        return [rel, origin, txns, rng.choice([3, 3, 4, 5])]
     return [rel, origin, txns]
 
 
@@ -507,12 +580,92 @@ def permuted_loads(ctx, rng):
         perm = recs[:]
         rng.shuffle(perm)
         ops = [[1, user_form(rng, rel, origin, n, 0.0), t, [i]] for n, t, i in perm]
-        yield "perm-one-txn", [rel, origin, [[1, 1, ops, qs]]]
+        tp = rng.choice([0, 3, 3, 4])
+        yield "perm-one-txn", [rel, origin, [[1, 1, ops, qs]], tp]
         txns = [[1 if j == 0 else 0, 1, [op], []] for j, op in enumerate(ops)]
         txns[-1][3] = qs
-        yield "perm-many-txn", [rel, origin, txns]
+        yield "perm-many-txn", [rel, origin, txns, tp]
         yield "load", [100, rel, origin, rng.randrange(2),
                        [[user_form(rng, rel, origin, n, 0.5), t, i] for n, t, i in perm], qs]
+
+
+def gen_large(ctx, rng, n):
+    """a zone of about n names under three big subtrees (d, k, r) and flat names, so that the name
+    index is a multi-level B-tree with the default t; cuts are created and removed above the big
+    subtrees inside transactions that also touch names beneath and beside them"""
+    rel = rng.randrange(2)
+    origin = rng.choice(ORIGINS[:2])
+    tops = [b"d", b"k", b"r"]
+    names = []
+    for i in range(n):
+        lab = b"n%03d" % i
+        r = i % 5
+        names.append([lab] if r == 0 else [lab, tops[r % 3]] if r < 4 else [lab, b"x", tops[i % 3]])
+    mode = rng.choice(["sorted", "sorted", "shuffled", "reversed"])
+    if mode == "sorted":
+        names.sort(key=key)
+    elif mode == "reversed":
+        names.sort(key=key, reverse=True)
+    else:
+        rng.shuffle(names)
+    uf = lambda ls: user_form(rng, rel, origin, ls, 0.1)
+    load = [[1, uf([]), NS, [1]]] + [[1, uf(nm), 1, [1]] for nm in names]
+    txns = [[1, 1, load, []]]
+    sub = lambda top: [nm for nm in names if nm[-1] == top]
+    for step in range(rng.choice([2, 3, 4])):
+        top = rng.choice(tops)
+        ops = []
+        for _ in range(rng.choice([0, 1, 2])):          # touch names beneath / beside before the cut changes
+            ops.append([2, uf(rng.choice(sub(top) or names)), rng.choice([1, 16]), [rng.randrange(1, 5)]])
+        if rng.random() < 0.6:
+            ops.append([1, uf(top and [top]), 16, [1]])  # touch the cut itself first
+        for j in range(rng.choice([0, 1, 1, 2, 3])):     # new names at the end / in the subtree
+            ops.append([1, uf([b"zzz%d%d" % (step, j)] if rng.random() < 0.6 else [b"m%d%d" % (step, j), top]), 1, [1]])
+        r = rng.random()
+        if r < 0.5:
+            ops.append([1, uf([top]), NS, [1]])
+        elif r < 0.75:
+            ops.append([4, uf([top]), NS])
+        else:
+            ops.append([3, uf([top])])
+        if rng.random() < 0.4:
+            ops.append([1, uf([b"x", top]), NS, [2]])    # a nested cut
+        if rng.random() < 0.3:
+            ops.append([3, uf(rng.choice(names))])
+        qs = [uf([top]), uf([b"n001", top]), uf([b"zzzz"]), uf([b"a", b"x", top]), uf([top + b"0"]), uf([])]
+        txns.append([0, int(rng.random() < 0.92), ops, qs])
+    return [rel, origin, txns]
+
+
+LARGE_SIZES = [253, 254, 255, 378, 379, 380, 381, 506, 507]
+
+DEEP_ALPHA = [b"a", b"b", b"c", b"d", b"e", b"f"]
+
+
+def gen_deep(ctx, rng):
+    """many distinct names with a small t: every split / merge / steal / multi-level cursor path of
+    the B-tree is taken while cuts are created and removed (glue walks re-store whole subtrees)"""
+    rel = rng.randrange(2)
+    origin = rng.choice(ORIGINS)
+    names = []
+    first = [[1, user_form(rng, rel, origin, []), NS, [1]]]
+    for _ in range(rng.choice([12, 20, 30, 45])):
+        first.append(gen_op(rng, rel, origin, DEEP_ALPHA, names))
+    txns = [[1, 1, first, []]]
+    for i in range(rng.choice([3, 5, 8])):
+        ops = [gen_op(rng, rel, origin, DEEP_ALPHA, names) for _ in range(rng.choice([1, 2, 3, 5]))]
+        top = [rng.choice(DEEP_ALPHA)]
+        r = rng.random()
+        if r < 0.4:
+            ops.append([1, user_form(rng, rel, origin, top), NS, [1]])
+        elif r < 0.6:
+            ops.append([4, user_form(rng, rel, origin, top), NS])
+        elif r < 0.7:
+            ops.append([3, user_form(rng, rel, origin, top)])
+        qs = [user_form(rng, rel, origin, rand_name(rng, DEEP_ALPHA, 3), 0.1) for _ in range(3)]
+        txns.append([0, int(rng.random() < 0.93), ops, qs])
+    return [rel, origin, txns, rng.choice([3, 3, 3, 4])]
+
 
 
 def exhaustive_small(ctx):
@@ -548,10 +701,15 @@ def cases(ctx):
     # all query names over the label alphabet on the final state
     for _ in range(ctx.n(30, 350)):
         c = gen_history(ctx, rng, nq=0)
-        rel, origin, txns = c
+        rel, origin, txns = c[:3]
         txns[-1][1] = 1
         txns[-1][3] = [user_form(rng, rel, origin, q, 0.05) for q in all_queries(ALPHA, ctx.n(3, 3))]
         yield "bounds-all", c
+    for _ in range(ctx.n(60, 1200)):
+        yield "deep", gen_deep(ctx, rng)
+    for i in range(ctx.n(2, 36)):
+        n = LARGE_SIZES[i % len(LARGE_SIZES)] if i % 2 == 0 else rng.randint(256, 700)
+        yield "large", gen_large(ctx, rng, n)
     yield from exhaustive_small(ctx)
 
 
